@@ -200,3 +200,64 @@ Proof.
     destruct (starts_with_strip _ _ I) as (t & _ & ->).
     destruct (alleged_prefix_never_upgrades_ok false t c) as (_ & A & _). exact (proj2 (A H)).
 Qed.
+
+(* ------------------------------------------------------------ no-write links *)
+Lemma ro_kind_readonly k : is_readonly_k (ro_kind k) = true.
+Proof. destruct k; reflexivity. Qed.
+
+Lemma known_mk c : known c = true -> exists dir f, c = mk_cap dir f.
+Proof. destruct c as [f|f|s e]; intro K; [exists false, f|exists true, f|discriminate]; reflexivity. Qed.
+
+Lemma parse_of_readonly_string_is_readonly dir f c' :
+  from_string false (to_string (mk_cap dir (get_readonly_f f))) = Ok c' -> is_readonly c' <> Some false.
+Proof.
+  intro H. destruct (known c') eqn:K; [|destruct c'; try discriminate K; cbn; discriminate].
+  destruct (from_string_known false _ c' H K) as (cbm & cbw & s & dir' & f' & g & ext & Ea & -> & _ & _ & _ & Hs & _).
+  rewrite to_string_prefix in Ea, Hs.
+  unfold strip_alleged in Ea. destruct (alleged_none dir (kind_of (get_readonly_f f)) (file_body (get_readonly_f f))) as [E1 E2].
+  rewrite E1, E2 in Ea. injection Ea as _ _ <-.
+  rewrite to_string_prefix, <- app_assoc in Hs.
+  destruct (dispatch_prefix_unique _ _ _ _ _ _ _ eq_refl Hs) as [_ Hk].
+  unfold is_readonly. rewrite inner_mk_cap. cbn [option_map]. unfold is_readonly_f.
+  rewrite <- Hk, kind_of_get_readonly, ro_kind_readonly. discriminate.
+Qed.
+
+(* A child linked with no-write carries no write cap: DirectoryNode._create_readonly_node
+   returns a node whose get_write_uri() is None -- for every known cap, and for every
+   UnknownNode whose read cap carries an allegation (as UnknownNode.__init__ guarantees),
+   in particular for an unknown-format (write cap, read cap) pair. *)
+Theorem no_write_link_has_no_write_cap_ok m :
+  (forall n r, m = MUnknown (UOk n) -> un_ro n = Some r -> (1 <= strength r)%nat) ->
+  made_write_uri (create_readonly_node m) = None.
+Proof.
+  intro Hn.
+  assert (Fresh : forall ro, (forall s c', or_none ro = Some s -> from_string false s = Ok c' -> is_readonly c' <> Some false) ->
+                  made_write_uri (create_fresh None ro false) = None).
+  { intros ro Hro. unfold create_fresh, bigcap. cbn [or_none]. destruct (or_none ro) as [s|] eqn:Es; [|reflexivity].
+    destruct (from_string false s) as [c'| |] eqn:F; try reflexivity.
+    destruct (builds_node c').
+    - cbn [made_write_uri]. specialize (Hro s c' eq_refl F). destruct (is_readonly c') as [[|]|]; try reflexivity. exfalso. apply Hro. reflexivity.
+    - cbn [made_write_uri]. destruct (unknown_node None ro false) as [n'| |] eqn:U; try reflexivity.
+      destruct (un_rw n') as [w|] eqn:W; [|reflexivity].
+      destruct (unknown_node_rules_ok None ro false n' U) as (_ & _ & _ & _ & R). destruct (R w W) as [R1 _]. discriminate R1. }
+  unfold create_readonly_node. destruct m as [c|u|].
+  - destruct (is_readonly c) as [[|]|] eqn:Er.
+    + cbn [made_write_uri]. rewrite Er. reflexivity.
+    + apply Fresh. intros s c' Es F. cbn [made_readonly_uri] in Es.
+      destruct c as [f|f|x e]; cbn [get_readonly option_map] in Es; try discriminate Er.
+      * assert (s = to_string (mk_cap false (get_readonly_f f))) as -> by (cbn [mk_cap]; destruct (to_string (CFile (get_readonly_f f))); [discriminate Es|injection Es as <-; reflexivity]).
+        exact (parse_of_readonly_string_is_readonly false f c' F).
+      * assert (s = to_string (mk_cap true (get_readonly_f f))) as -> by (cbn [mk_cap]; destruct (to_string (CDir (get_readonly_f f))); [discriminate Es|injection Es as <-; reflexivity]).
+        exact (parse_of_readonly_string_is_readonly true f c' F).
+    + destruct c as [f|f|x e]; try discriminate Er. apply Fresh. intros s c' Es. discriminate Es.
+  - apply Fresh. intros s c' Es F. destruct u as [n| |]; cbn [made_readonly_uri] in Es; try discriminate Es.
+    destruct (un_ro n) as [r|] eqn:Er; [|discriminate Es].
+    assert (s = r) as -> by (destruct r; [discriminate Es|injection Es as <-; reflexivity]).
+    specialize (Hn n r eq_refl Er).
+    destruct (strength_cases r) as [[E I]|[(E & I & R)|(E & _)]]; [| |rewrite E in Hn; lia].
+    + destruct (starts_with_strip _ _ I) as (t & _ & ->).
+      destruct (alleged_prefix_never_upgrades_ok false t c') as (_ & A & _). exact (proj1 (A F)).
+    + destruct (starts_with_strip _ _ R) as (t & _ & ->).
+      destruct (alleged_prefix_never_upgrades_ok false t c') as (A & _). exact (A F).
+  - apply Fresh. intros s c' Es. discriminate Es.
+Qed.
